@@ -10,7 +10,7 @@ from vf.model.rnd import urandoms
 PID = "C06"
 LEVEL = "exploration"
 BUDGET = {"quick": 8000, "thorough": 400000}
-HEADS = ["alpha", "beta", "gamma", "delta", "interface", "eps"]
+HEADS = ["alpha", "beta", "gamma", "delta", "interface", "eps", "notify", "undone"]   # (the last two merely start like "no" / "undo")
 RULE = ("Hypothesis draws two ACL texts A, B over the ACL language (nesting<=3, *, trailing ~, literal words, '~ %global' catch-alls, literal "
         "%global leaf rules, %cant_delete=0/1) and a tree over the same words with covered and uncovered rows interleaved at every depth; "
         "vendor huawei / cisco / juniper (rows with the 'inactive: ' marker). Oracle: vf.model.refacl.ref_filter (independent coverage "
@@ -20,7 +20,7 @@ RULE = ("Hypothesis draws two ACL texts A, B over the ACL language (nesting<=3, 
         "ancestors and names it; filter_config agrees. Non-trivial: result neither empty nor the whole tree, depth>=2.")
 ASSUMPTIONS = [
     "%global rules are catch-alls (~) or literal leaf rules, so 'a global rule covers the whole subtree' and the code's inheritance coincide",
-    "config rows never start with the vendor's negation word; %prio is not generated (tie-breaks by specificity are not part of the statement)",
+    "negated config lines ('undo x', 'no x') are generated only for heads that no rule of the case protects (%cant_delete / interface default); %prio is not generated (tie-breaks by specificity are not part of the statement)",
 ]
 FLOORS = {"strict-subset": 0.3, "fatal-raises": 0.2, "nested-result": 0.25, "union-bigger": 0.15}
 
@@ -74,7 +74,18 @@ def _inst(rnd, toks):
     return " ".join(w)
 
 
-def gen_tree(rnd, d=0, jun=False, rules=()):
+def _cd_heads(rules, acc=None):
+    """heads that some rule protects (%cant_delete, or the built-in default for 'interface...'): a NEGATED line of such a head is
+    refused when the protecting rule governs it, which depends on the specificity metric - not generated"""
+    acc = set() if acc is None else acc
+    for r in rules:
+        if RA.cant_delete(r):
+            acc.add(r["toks"][0])
+        _cd_heads(r["children"], acc)
+    return acc
+
+
+def gen_tree(rnd, d=0, jun=False, rules=(), rev=None, protected=()):
     """rows instantiated from the ACL rules applicable here (so that coverage is frequent), mixed with foreign rows"""
     t = odict()
     for _ in range(rnd.randint(1, 5)):
@@ -91,7 +102,10 @@ def gen_tree(rnd, d=0, jun=False, rules=()):
             row = row.upper() if rnd.chance(50) else row.capitalize()   # differs from the rule words only by letter case
         if jun and rnd.chance(20):
             row = "inactive: " + row
-        t[row] = gen_tree(rnd, d + 1, jun, sub) if d < 3 and rnd.chance(55) else odict()
+        if rev and rnd.chance(10) and row.split(" ")[0].lower() not in protected:
+            t[rev + " " + row] = odict()    # a negated line ('undo alpha a'): covered by whatever covers the plain line
+            continue
+        t[row] = gen_tree(rnd, d + 1, jun, sub, rev, protected) if d < 3 and rnd.chance(55) else odict()
     return t
 
 
@@ -106,8 +120,9 @@ def to_odict(t):
 def _gen_from(rnd):
     vendor = rnd.choice(["huawei", "cisco", "juniper"])
     a, b = gen_acl(rnd), gen_acl(rnd)
-    return {"vendor": vendor, "A": a, "B": b, "tree": plain(gen_tree(rnd, jun=(vendor == "juniper"), rules=a + b)),
-            "acl_indents": [rnd.choice([0, 4, 8]), rnd.choice([0, 4, 12])]}
+    return {"vendor": vendor, "A": a, "B": b, "tree": plain(gen_tree(rnd, jun=(vendor == "juniper"), rules=a + b, rev={"huawei": "undo", "cisco": "no"}.get(vendor),
+                                                               protected={h.lower() for h in _cd_heads(a + b)} | {"interface"})),
+            "acl_indents": [rnd.choice([0, 4, 8]), rnd.choice([0, 4, 12])], "acl_comments": rnd.choice([0, 0, 1, 2, 3])}
 
 
 @st.composite
@@ -136,6 +151,11 @@ def depth(t):
     return 0 if not t else 1 + max(depth(v) for v in t.values())
 
 
+def _nocomment(text):
+    """the combined ACL text without comment lines (they are tagged like any line, and skipped by the parser)"""
+    return "".join(l + "\n" for l in text.split("\n") if l and not l.strip().startswith("#"))
+
+
 def check(case):
     from annet.annlib.filter_acl import filter_config
     from annet.annlib.patching import AclError, apply_acl
@@ -143,6 +163,7 @@ def check(case):
     from annet.annlib.tabparser import parse_to_tree
     from vf.model import sut
     vendor = case["vendor"]
+    rev = {"huawei": "undo", "cisco": "no"}.get(vendor)
     norm = (lambda r: r[len("inactive: "):] if r.startswith("inactive: ") else r) if vendor == "juniper" else None
     t = to_odict(case["tree"])
     labels = ["vendor:" + vendor]
@@ -152,7 +173,7 @@ def check(case):
         text = RA.acl_text(rules)
         comp = compile_acl_text(text, vendor)
         got = apply_acl(t, comp)
-        exp = RA.ref_filter(t, RA.ACtx.top([(name, rules)], norm))
+        exp = RA.ref_filter(t, RA.ACtx.top([(name, rules)], norm, rev))
         det = {"acl": text, "got": plain(got), "expected": plain(exp)}
         if order(got) != order(exp):
             raise Violation("filter-differs", f"apply_acl(t,{name}) != reference filter: got {plain(got)!r} expected {plain(exp)!r}"[:700], det)
@@ -163,7 +184,7 @@ def check(case):
             raise Violation("not-idempotent", f"filtering twice changes the result: {plain(again)!r} vs {plain(got)!r}"[:600], det)
         res[name] = got
         # strict mode
-        bad = RA.first_uncovered(t, RA.ACtx.top([(name, rules)], norm))
+        bad = RA.first_uncovered(t, RA.ACtx.top([(name, rules)], norm, rev))
         try:
             apply_acl(t, comp, fatal_acl=True)
             raised = None
@@ -182,12 +203,12 @@ def check(case):
         if any(k.startswith("inactive: ") for k in _all_rows(got)):
             labels.append("jun-inactive-kept")
     named = [("A", case["A"]), ("B", case["B"])]
-    ctext = sut.production_acl_text(named, case.get("acl_indents"))
-    if ctext != RA.combined_text(named):
+    ctext = sut.production_acl_text(named, case.get("acl_indents"), case.get("acl_comments", 0))
+    if _nocomment(ctext) != RA.combined_text(named):
         raise Violation("acl-merge-text", "the combined ACL text differs from 'every line of every generator, dedented, tagged'",
                         {"got": ctext, "expected": RA.combined_text(named)})
     ab = apply_acl(t, compile_acl_text(ctext, vendor))
-    expab = RA.ref_filter(t, RA.ACtx.top(named, norm))
+    expab = RA.ref_filter(t, RA.ACtx.top(named, norm, rev))
     det = {"acl": ctext, "got": plain(ab), "expected": plain(expab)}
     for name in ("A", "B"):
         if not RA.is_subtree(res[name], ab):
